@@ -175,20 +175,38 @@ func VH_diagText(nkeys int) {
 	}
 	vpReset(1, 0, false)
 	stOnline = false
+	// the missing name is either unlike every key, or as close to one key as to another
+	// (item9 vs item1, item2, …): whatever a diagnostic derives from "the nearest key" is a tie
+	missing := "zz"
+	if nkeys >= 2 {
+		if verifChoice(2) == 1 {
+			missing = "item9"
+		}
+	}
 	var texts [2]string
 	for run := 0; run < 2; run++ {
 		in := NewInterpreter()
-		env := environment.NewEnvironmentWithParent(in.globals)
 		vpN = 0
 		for i := 0; i < nkeys; i++ {
 			vpNew(0, 0, 1)
 			vpCalls[i] = 0
-			env.Define(fmt.Sprintf("p%d", i), verifProbe{i})
+			in.globals.Define(fmt.Sprintf("p%d", i), verifProbe{i}) // Interpret runs in a child of the globals
+			vpVals[i][0] = float64(i + 1)
 		}
 		toks := objectLiteralTokens(ks, 1)
+		// property names that differ in one place only (item1, item2, …)
+		for ti := range toks {
+			for kk := 0; kk < 4; kk++ {
+				if toks[ti].Type == token.IDENTIFIER && toks[ti].Lexeme == obKeys[kk] {
+					toks[ti].Lexeme = fmt.Sprintf("item%d", kk+1)
+				}
+			}
+		}
 		// ( { … } ) . zz ;  — replace the final ") ; EOF" by ") . zz ; EOF"
 		toks = toks[:len(toks)-2]
-		toks = append(toks, tk(token.DOT, ".", nil, 1), tk(token.IDENTIFIER, "zz", nil, 1), tk(token.SEMICOLON, ";", nil, 1), tk(token.EOF, "", nil, 1))
+		// the missing name is as close to one listed key as to another (ka / Ka differ from it
+		// in one place each): whatever a diagnostic derives from "the nearest key" is a tie
+		toks = append(toks, tk(token.DOT, ".", nil, 1), tk(token.IDENTIFIER, missing, nil, 1), tk(token.SEMICOLON, ";", nil, 1), tk(token.EOF, "", nil, 1))
 		utils.HadError, utils.HadRuntimeError = false, false
 		stmts, err := parser.NewParser(toks).Parse()
 		if err != nil {
@@ -198,6 +216,9 @@ func VH_diagText(nkeys int) {
 		verifClearEvents()
 		in.Interpret(stmts, false)
 		verifAssert("missing-property-is-diagnosed", utils.HadRuntimeError && hvCountStderr() >= 1)
+		for i := 0; i < nkeys; i++ {
+			verifAssert("diagnostic-program-evaluates-its-initialisers", vpCalls[i] == 1)
+		}
 		for i := 0; i < verifNumEvents(); i++ {
 			if verifEventKind(i) == 2 {
 				texts[run] = verifEventText(i)
